@@ -725,6 +725,28 @@ class _Expr(ast.NodeTransformer):
 
     def visit_Call(self, n):
         self.generic_visit(n)
+        # (lambda: E)() == E
+        if isinstance(n.func, ast.Lambda) and not n.args and not n.keywords and not n.func.args.args and not n.func.args.kwonlyargs \
+                and n.func.args.vararg is None and n.func.args.kwarg is None:
+            return n.func.body
+        # any(E(x) for x in (a, b, c)) == E(a) or E(b) or E(c); all(...) == ... and ...   (a literal tuple / list of elements, one plain target,
+        # no filter: the short-circuit order is the order of the elements, as in the generator)
+        if isinstance(n.func, ast.Name) and n.func.id in ('any', 'all') and len(n.args) == 1 and not n.keywords \
+                and isinstance(n.args[0], (ast.GeneratorExp, ast.ListComp)) and len(n.args[0].generators) == 1:
+            g = n.args[0].generators[0]
+            if isinstance(g.iter, (ast.Tuple, ast.List)) and g.iter.elts and len(g.iter.elts) <= 8 and not g.ifs and isinstance(g.target, ast.Name) \
+                    and not any(isinstance(e, ast.Starred) for e in g.iter.elts) and not g.is_async \
+                    and (isinstance(n.args[0], ast.GeneratorExp) or all(_pure(e, False) for e in g.iter.elts)):
+                import copy as _cp
+
+                class _Sub(ast.NodeTransformer):
+                    def __init__(s_, val):
+                        s_.val = val
+
+                    def visit_Name(s_, x):
+                        return _cp.deepcopy(s_.val) if x.id == g.target.id and isinstance(x.ctx, ast.Load) else x
+                vals = [_Expr().visit(_Sub(e).visit(_cp.deepcopy(n.args[0].elt))) for e in g.iter.elts]
+                return self.visit_BoolOp(ast.BoolOp(op=ast.Or() if n.func.id == 'any' else ast.And(), values=vals)) if len(vals) > 1 else vals[0]
         # operator.gt(a, b) == (a > b)
         if isinstance(n.func, ast.Attribute) and isinstance(n.func.value, ast.Name) and n.func.value.id == 'operator' and n.func.attr in self._OPERATOR \
                 and self._OPERATOR[n.func.attr] is not None and len(n.args) == 2 and not n.keywords:
@@ -940,7 +962,7 @@ def _pure(e, single_use: bool) -> bool:
     for n in ast.walk(e):
         if isinstance(n, (ast.Yield, ast.YieldFrom, ast.Await, ast.NamedExpr, ast.Starred)):
             return False
-        if isinstance(n, ast.Lambda) and not (single_use and n is e):
+        if isinstance(n, ast.Lambda) and not (single_use and (n is e or (isinstance(e, (ast.Tuple, ast.List)) and any(n is x for x in e.elts)))):
             return False
         if isinstance(n, (ast.ListComp, ast.SetComp, ast.DictComp, ast.GeneratorExp, ast.List, ast.Dict, ast.Set)) and not single_use:
             return False
